@@ -29,7 +29,7 @@ var cv = rsm2.Std
 func curve() elliptic.Curve { return sm2.P256Sm2() }
 
 func TestMain(m *testing.M) {
-	R.Require("limb_sparse_enum", "k>=n", "k_leading_zero_bytes", "len(k)>32", "k_wnaf_meet", "Add_equal", "Add_opposite", "Add_inf", "limb_max", "limb_carry", "genkey_allzero", "genkey_short")
+	R.Require("limb_sparse_enum", "jac_negY_short", "k>=n", "k_leading_zero_bytes", "len(k)>32", "k_wnaf_meet", "Add_equal", "Add_opposite", "Add_inf", "limb_max", "limb_carry", "genkey_allzero", "genkey_short")
 	hx.Main(m, R)
 }
 
@@ -665,6 +665,27 @@ func TestC03_JacobianFormulas(t *testing.T) {
 		}
 		x1, y1, z1 := jac(t, p, "p")
 		x2, y2, z2 := jac(t, q, "q")
+		if !q.Inf && q.Y.Sign() != 0 && rapid.IntRange(0, 3).Draw(t, "negYshort") == 0 {
+			// a Jacobian representative of q whose NEGATED Y coordinate is short in the internal (Montgomery, 2^257) form:
+			// -Y*2^257 mod p = s with s below 2^(29k) for a drawn limb count k - the subtraction negates Y in place, so the
+			// upper limbs of the result must be written as zeros, not left as they were. p = 2 mod 3: cube roots are unique,
+			// Z = cbrt(Y/y).
+			s := new(big.Int).Add(gen.BigBelow(new(big.Int).Lsh(big.NewInt(1), uint(1+28*rapid.IntRange(0, 7).Draw(t, "negYlimbs")))).Draw(t, "negYs"), big.NewInt(1))
+			rinv := new(big.Int).ModInverse(new(big.Int).Lsh(big.NewInt(1), 257), cv.P)
+			yj := new(big.Int).Mul(s, rinv)
+			yj.Neg(yj).Mod(yj, cv.P)
+			ratio := new(big.Int).Mul(yj, new(big.Int).ModInverse(q.Y, cv.P))
+			ratio.Mod(ratio, cv.P)
+			e := new(big.Int).Lsh(cv.P, 1)
+			e.Sub(e, big.NewInt(1)).Div(e, big.NewInt(3)) // (2p-1)/3
+			zv := new(big.Int).Exp(ratio, e, cv.P)
+			if chk := new(big.Int).Exp(zv, big.NewInt(3), cv.P); chk.Cmp(ratio) != 0 || zv.Sign() == 0 {
+				t.Fatalf("harness: cube root")
+			}
+			xv := new(big.Int).Mul(q.X, new(big.Int).Mul(zv, zv))
+			x2, y2, z2 = sm2.VerifFEFromBig(xv.Mod(xv, cv.P)), sm2.VerifFEFromBig(yj), sm2.VerifFEFromBig(zv)
+			R.Class("jac_negY_short")
+		}
 		ax, ay := sm2.VerifToAffine(sm2.VerifPointAdd(x1, y1, z1, x2, y2, z2))
 		if want := cv.Add(p, q); !eqAff(ax, ay, want) {
 			wx, wy := want.Affine()
